@@ -292,7 +292,7 @@ theorem spec_formatted_string_accepted_unbind (s : Str) (h : CpeSpec.FormattedSt
 
 /-
   Full statement (false of the unchanged code): (unbindFS s).isSome ↔ FormattedString s.
-  The unbinder is more lenient in six ways; each is shown on a witness below
+  The unbinder is more lenient in six ways (and in one the grammars leave open); each is shown on a witness below
   (and replayed on the implementation by the harness as a listed finding).
 -/
 
@@ -304,8 +304,8 @@ def wEmpty : Str := [99, 112, 101, 58, 50, 46, 51, 58, 97, 58, 58, 99, 58, 42, 5
 def wUnquoted : Str := [99, 112, 101, 58, 50, 46, 51, 58, 97, 58, 98, 33, 99, 58, 42, 58, 42, 58, 42, 58, 42, 58, 42, 58, 42, 58, 42, 58, 42, 58, 42]
 /-- `cpe:2.3:a:\b:*:*:*:*:*:*:*:*:*` -/
 def wQuoted : Str := [99, 112, 101, 58, 50, 46, 51, 58, 97, 58, 92, 98, 58, 42, 58, 42, 58, 42, 58, 42, 58, 42, 58, 42, 58, 42, 58, 42, 58, 42]
-/-- `cpe:2.3:a:??:*:*:*:*:*:*:*:*:*` -/
-def wSpecial : Str := [99, 112, 101, 58, 50, 46, 51, 58, 97, 58, 63, 63, 58, 42, 58, 42, 58, 42, 58, 42, 58, 42, 58, 42, 58, 42, 58, 42, 58, 42]
+/-- `cpe:2.3:a:**:*:*:*:*:*:*:*:*:*` -/
+def wSpecial : Str := [99, 112, 101, 58, 50, 46, 51, 58, 97, 58, 42, 42, 58, 42, 58, 42, 58, 42, 58, 42, 58, 42, 58, 42, 58, 42, 58, 42, 58, 42]
 /-- `cpe:2.3:a:b:c:d:e:f:notalanguage:*:*:*:*` -/
 def wLang : Str := [99, 112, 101, 58, 50, 46, 51, 58, 97, 58, 98, 58, 99, 58, 100, 58, 101, 58, 102, 58, 110, 111, 116, 97, 108, 97, 110, 103, 117, 97, 103, 101, 58, 42, 58, 42, 58, 42, 58, 42]
 /-- `notalanguage` -/
@@ -360,17 +360,19 @@ theorem unbind_lenient_quoted_nonpunctuation_counterexample :
   have := avString_strict [92, 98] (hav _ (by rw [← hsplit.2]; simp))
   revert this; decide
 
-/-- A value of special characters only is accepted. -/
-theorem unbind_lenient_special_only_counterexample :
-    (unbindFS wSpecial).isSome = true ∧
-      ¬ CpeSpec.FormattedString wSpecial := by
+/-- Two asterisks in sequence are accepted as a value.  (Values made of
+    question marks only, or of a `?`-run and an asterisk, are also accepted;
+    whether the specification's grammar admits those is left open in
+    `CpeSpec`, so only `**` is claimed as a departure.) -/
+theorem unbind_lenient_double_asterisk_counterexample :
+    (unbindFS wSpecial).isSome = true ∧ ¬ CpeSpec.FormattedString wSpecial := by
   refine ⟨by decide, fun h => ?_⟩
   obtain ⟨part, rest, hsplit, _, _, hav, _⟩ := formattedString_comps _ h
   have : splitFS wSpecial =
-      [segCpe, seg23, [97], [63, 63], [42], [42], [42], [42], [42], [42], [42], [42], [42]] := by decide
+      [segCpe, seg23, [97], [42, 42], [42], [42], [42], [42], [42], [42], [42], [42], [42]] := by decide
   rw [this] at hsplit
   simp only [List.cons.injEq, true_and] at hsplit
-  rcases avString_hasBody [63, 63] (hav _ (by rw [← hsplit.2]; simp)) with h1 | h1
+  rcases avString_hasBody [42, 42] (hav _ (by rw [← hsplit.2]; simp)) with h1 | h1
   · cases h1
   · revert h1; decide
 
